@@ -966,6 +966,223 @@ def stream_ctor(ctx: Ctx):
         ctx.count("ctor.parameter")
 
 
+# ============================================================================= mixed-regime batches = item by item
+
+def _qmul(a, b):
+    ax, ay, az, aw = a
+    bx, by, bz, bw = b
+    return [aw * bx + ax * bw + ay * bz - az * by, aw * by - ax * bz + ay * bw + az * bx,
+            aw * bz + ax * by - ay * bx + az * bw, aw * bw - ax * bx - ay * by - az * bz]
+
+
+def _qaxis(axis, ang):
+    n = math.sqrt(sum(c * c for c in axis))
+    h = ang / 2
+    return [c / n * math.sin(h) for c in axis] + [math.cos(h)]
+
+
+def _qeuler(roll, pitch, yaw):
+    return _qmul(_qaxis([0, 0, 1], yaw), _qmul(_qaxis([0, 1, 0], pitch), _qaxis([1, 0, 0], roll)))
+
+
+def special_rotations():
+    """[(regime, quaternion, rotation vector)] — orientations in the special regimes of the per-item branches
+    (gimbal lock of `euler` at its default eps=2e-4, angle 0, tiny angles, angle pi, w<0) — built with plain python"""
+    hp = math.pi / 2
+    out = []
+
+    def add(name, q, phi):
+        out.append((name, q, phi))
+    add("identity", [0., 0., 0., 1.], [0., 0., 0.])
+    add("minus-identity", [0., 0., 0., -1.], [0., 0., 0.])
+    for nm, p in (("lock+", hp), ("lock-", -hp), ("lock+near", hp - 0.005), ("lock-near", -hp + 0.005), ("almost-lock", hp - 0.05)):
+        q = _qeuler(0.3, p, -0.7)
+        add(nm, q, None)
+    add("lock+pure", _qaxis([0, 1, 0], hp), [0., hp, 0.])
+    add("lock-pure", _qaxis([0, 1, 0], -hp), [0., -hp, 0.])
+    add("lock+pure-near", _qaxis([0, 1, 0], hp - 0.005), [0., hp - 0.005, 0.])
+    for nm, ax, ang in (("pi-x", [1, 0, 0], math.pi), ("pi-oblique", [0.6, 0, 0.8], math.pi), ("near-pi", [0.3, -0.5, 0.8], math.pi - 1e-6),
+                        ("tiny-1e-12", [0.2, 0.9, -0.4], 1e-12), ("tiny-1e-9", [0.7, -0.1, 0.7], 1e-9), ("tiny-1e-5", [-0.5, 0.5, 0.7], 1e-5),
+                        ("beyond-pi", [0.1, 0.7, 0.7], math.pi + 0.4)):
+        n = math.sqrt(sum(c * c for c in ax))
+        add(nm, _qaxis(ax, ang), [c / n * ang for c in ax])
+    q = _qaxis([0.4, 0.5, -0.76], 2.2)
+    add("w-negative", [-c for c in _qaxis([0.4, 0.5, -0.76], 4.5)], None)
+    return out
+
+
+_CORPUS = {}
+
+
+def regime_corpus(lt, dtype):
+    """(names, tensor (N, d)): the special-regime items of ltype `lt` followed by ordinary pool items"""
+    key = (lt, dtype)
+    if key in _CORPUS:
+        return _CORPUS[key]
+    grp = lt in GROUPS
+    base = lt if grp else [g for g, a in ALGEBRA.items() if a == lt][0]
+    names, rows = [], []
+    trans = [[0.3, -1.2, 2.0], [0., 0., 0.], [5.0, 0.1, -0.4]]
+    scales = [1.0, 0.5, 2.0] if grp else [0.0, 1e-9, 0.3, -0.4]
+    k = 0
+    for nm, q, phi in special_rotations():
+        r = q if grp else phi
+        if r is None:
+            continue
+        t = trans[k % len(trans)]
+        sc = scales[k % len(scales)]
+        row = {"SO3": r, "SE3": t + r, "RxSO3": r + [sc], "Sim3": t + r + [sc]}[base]
+        names.append(nm)
+        rows.append(row)
+        k += 1
+    T = torch.tensor(rows, dtype=torch.float64)
+    pool = POOLS.get(lt, "float64")[:5]
+    names += [f"ordinary{j}" for j in range(pool.shape[0])]
+    T = torch.cat([T, pool], dim=0).to(DT[dtype]).contiguous()
+    _CORPUS[key] = (names, T)
+    return names, T
+
+
+_SINGLE = {}
+
+
+def _close(a, b, dtype):
+    """batched value vs the same function on the single item: 64 eps (NaN == NaN)"""
+    a, b = _plain(a).detach(), _plain(b).detach()
+    if a.shape != b.shape:
+        return False
+    na, nb = torch.isnan(a), torch.isnan(b)
+    if not torch.equal(na, nb):
+        return False
+    a, b = torch.nan_to_num(a, nan=0.0, posinf=1e300, neginf=-1e300), torch.nan_to_num(b, nan=0.0, posinf=1e300, neginf=-1e300)
+    tol = 64 * common.EPS[dtype]
+    return bool(((a - b).abs() <= tol * (1 + b.abs().max() if b.numel() else 1)).all())
+
+
+def check_regime(ctx: Ctx, case) -> bool:
+    """a batch mixing special-regime and ordinary items: every output item == the SAME function on that item alone"""
+    lt, op, api, dtype = case["lt"], case["op"], case["api"], case["dtype"]
+    spec = {o: (apis, out) for o, apis, out in unary_ops(lt)}[op]
+    fn = spec[0][api]
+    names, C = regime_corpus(lt, dtype)
+    order = list(case["order"])
+    shape = tuple(case["shape"])
+    X = _lie(C[order].reshape(shape + (C.shape[1],)).clone(), lt)
+    x0 = X.tensor().clone()
+    with warnings.catch_warnings():
+        warnings.simplefilter("ignore")
+        try:
+            r = fn(X)
+        except Exception as e:
+            ctx.fail(case, f"raises: {lt}.{op} ({api}) raises on a mixed-regime batch {[names[k] for k in order]}: {type(e).__name__}: {str(e)[:80]}")
+            return False
+        if not torch.equal(X.tensor(), x0):
+            ctx.fail(case, f"mutation: {lt}.{op} ({api}) changed its argument")
+        rt = _plain(r)
+        if tuple(rt.shape[:len(shape)]) != shape:
+            ctx.fail(case, f"shape: {lt}.{op} ({api}) on lshape {shape} returned shape {tuple(rt.shape)}")
+            return False
+        rt = rt.reshape((len(order),) + tuple(rt.shape[len(shape):]))
+        ok = True
+        for pos, k in enumerate(order):
+            key = (lt, op, dtype, k)
+            if key not in _SINGLE:
+                try:
+                    _SINGLE[key] = _plain(fn(_lie(C[k].clone(), lt))).detach()
+                except Exception as e:
+                    _SINGLE[key] = e
+            single = _SINGLE[key]
+            if isinstance(single, Exception):
+                ctx.fail(case, f"raises: {lt}.{op} raises on the single item `{names[k]}` but not on the batch")
+                return False
+            if not _close(rt[pos], single, dtype):
+                ctx.fail(case, f"itemwise: {lt}.{op} ({api}) on a batch mixing regimes {[names[j] for j in order]}: output item {pos} "
+                               f"(`{names[k]}`) is {rt[pos].flatten()[:4].tolist()} but the same function on that item alone gives "
+                               f"{single.flatten()[:4].tolist()}")
+                ok = False
+                break
+    return ok
+
+
+def check_regime2(ctx: Ctx, case) -> bool:
+    """binary op site, same-shape batch of mixed-regime items: every output item == the op on that pair alone"""
+    site = tuple(case["site"])
+    spec = SITES[site]
+    dtype = case["dtype"]
+    nx, CX = regime_corpus(spec["px"], dtype)
+    if spec["py"] in ("p3", "p4"):
+        CY = POOLS.get(spec["py"], dtype)
+        ny = [f"point{j}" for j in range(CY.shape[0])]
+    else:
+        ny, CY = regime_corpus(spec["py"], dtype)
+    ox, oy = list(case["ox"]), list(case["oy"])
+    X = _lie(CX[ox].clone(), spec["px"])
+    y = wrap_second(site, case["ycase"], CY[oy].clone())
+    tag = f"{site[0]}.{site[1]}"
+    with warnings.catch_warnings():
+        warnings.simplefilter("ignore")
+        try:
+            r = _plain(site_call(site, case["api"], X, y)).detach()
+        except Exception as e:
+            ctx.fail(case, f"raises: {tag} ({case['api']}) raises on a mixed-regime batch: {type(e).__name__}: {str(e)[:80]}")
+            return False
+        for pos, (i, j) in enumerate(zip(ox, oy)):
+            key = (site, dtype, i, j)
+            if key not in _SINGLE:
+                _SINGLE[key] = _plain(site_call(site, case["api"], _lie(CX[i].clone(), spec["px"]),
+                                                wrap_second(site, case["ycase"], CY[j].clone()))).detach()
+            if not _close(r[pos], _SINGLE[key], dtype):
+                ctx.fail(case, f"itemwise: {tag} ({case['api']}) on a batch mixing regimes: output item {pos} (`{nx[i]}` with `{ny[j]}`) is "
+                               f"{r[pos].flatten()[:4].tolist()} but the op on that pair alone gives {_SINGLE[key].flatten()[:4].tolist()}")
+                return False
+    return True
+
+
+def stream_regime(ctx: Ctx):
+    """corner corpus, the same for every seed: all special + ordinary items in ONE batch (two layouts), every special
+    item paired with an ordinary one (both orders); plus seed-dependent permutations / subsets"""
+    rng = ctx.rng
+    for lt in LTYPES:
+        for dtype in ("float64", "float32"):
+            names, C = regime_corpus(lt, dtype)
+            N = C.shape[0]
+            nsp = sum(1 for n in names if not n.startswith("ordinary"))
+            layouts = [(list(range(N)), (N,)), (list(range(N - 1, -1, -1)), (N,))]
+            if N % 2 == 0:
+                layouts.append((list(range(N)), (2, N // 2)))
+            else:
+                layouts.append((list(range(N - 1)), (2, (N - 1) // 2)))
+            for k in range(nsp):
+                layouts.append(([k, N - 1], (2,)))
+                layouts.append(([N - 2, k], (2,)))
+            for _ in range(ctx.pick(3, 40)):
+                m = rng.randint(2, 6)
+                layouts.append(([rng.randrange(N) for _ in range(m)], (m,)))
+            perm = list(range(N))
+            rng.shuffle(perm)
+            layouts.append((perm, (N,)))
+            for op, apis, out in unary_ops(lt):
+                for order, shape in (layouts if dtype == "float64" or not ctx.quick else layouts[:3]):
+                    case = {"kind": "regime", "lt": lt, "op": op, "api": rng.choice(sorted(apis)), "dtype": dtype,
+                            "order": order, "shape": list(shape)}
+                    check_regime(ctx, case)
+                    ctx.note_case(("regime", lt, op, dtype, tuple(order), shape), True)
+                    ctx.count(f"regime.{op}")
+    for site in SITE_KEYS:
+        spec = SITES[site]
+        for dtype in ("float64", "float32"):
+            nx = regime_corpus(spec["px"], dtype)[1].shape[0]
+            ny = POOLS.K if spec["py"] in ("p3", "p4") else regime_corpus(spec["py"], dtype)[1].shape[0]
+            n = min(nx, ny)
+            shifts = [0, 3] + [rng.randrange(n) for _ in range(ctx.pick(1, 8))]
+            for sh in (shifts if dtype == "float64" or not ctx.quick else shifts[:1]):
+                case = {"kind": "regime2", "site": list(site), "api": rng.choice(sorted(spec["apis"])), "ycase": rng.choice(["lie", "plain"]),
+                        "dtype": dtype, "ox": list(range(n)), "oy": [(k + sh) % n for k in range(n)]}
+                check_regime2(ctx, case)
+                ctx.note_case(("regime2", site, dtype, sh), True)
+                ctx.count(f"regime2.{site[1]}")
+
+
 # ============================================================================= __torch_function__ wrapping
 
 def leaf_code(x):
@@ -1431,6 +1648,7 @@ def run(ctx: Ctx):
     stream_handled(ctx, names)
     stream_ctor(ctx)
     stream_unary(ctx)
+    stream_regime(ctx)
     stream_purity(ctx)
     stream_bcast(ctx)
     if not all(getattr(m, n) is o for (m, n), o in zip(torch_slots(), originals())):
@@ -1447,7 +1665,7 @@ def search(ctx: Ctx):
         from pypose.lietensor import lietensor as L
         names = list(L.HANDLED_FUNCTIONS)
         for st in (lambda: stream_handled(ctx, names), lambda: stream_tf(ctx, names), lambda: stream_retain(ctx),
-                   lambda: stream_ctor(ctx), lambda: stream_unary(ctx), lambda: stream_purity(ctx)):
+                   lambda: stream_ctor(ctx), lambda: stream_unary(ctx), lambda: stream_regime(ctx), lambda: stream_purity(ctx)):
             st()
             if ctx.failures:
                 return
@@ -1476,6 +1694,10 @@ def replay(ctx: Ctx, case) -> bool:
             compare_handled(ctx, c, ex, ctx.driver.run(ex["lines"]))
     elif kind == "unary":
         check_unary(ctx, c)
+    elif kind == "regime":
+        check_regime(ctx, c)
+    elif kind == "regime2":
+        check_regime2(ctx, c)
     elif kind in ("ctor",):
         check_ctor(ctx, c)
     elif kind == "retain":
